@@ -1336,6 +1336,51 @@ fn builder_matrix(cx: &mut Ctx) -> usize {
     n
 }
 
+fn sibling_cases(cx: &mut Ctx) {
+    let rows: Vec<(i64, i64)> = vec![(0, 1), (1, 2), (0, 3), (1, 4), (2, 5), (2, 6), (0, 8)];
+    for shape in 0..4usize {
+        for par in [None, Some(2usize), Some(3)] {
+            // lineage: src -> [value-only run, the handle `mid` somewhere inside it] -> `kept`
+            let build = |p: &Pipeline| -> (PCollection<(i64, i64)>, PCollection<(i64, i64)>) {
+                let s = from_vec(p, rows.clone());
+                match shape {
+                    0 => { let mid = s.map_values(|v: &i64| v + 1); let kept = mid.clone().filter_values(|v: &i64| v % 2 == 0); (mid, kept) }
+                    1 => { let mid = s.map_values(|v: &i64| v * 3).map_values(|v: &i64| v + 1); let kept = mid.clone().filter_values(|v: &i64| v % 2 == 0).map_values(|v: &i64| v - 7); (mid, kept) }
+                    2 => { let mid = s.filter_values(|v: &i64| *v != 4).map_values(|v: &i64| v + 1); let kept = mid.clone().map_values_batches(2, |c: &[i64]| c.iter().map(|v| v * 2).collect()).filter_values(|v: &i64| v % 4 == 0); (mid, kept) }
+                    _ => { let mid = s.map_values(|v: &i64| v + 1); let kept = mid.clone().filter_values(|v: &i64| v % 2 == 0).group_by_key().map_values(|vs: &Vec<i64>| vs.iter().sum::<i64>()); (mid, kept) }
+                }
+            };
+            let run = |c: PCollection<(i64, i64)>| -> Result<Vec<(i64, i64)>, String> {
+                let r = match par { None => c.collect_seq(), Some(n) => c.collect_par(Some(2), Some(n)) };
+                r.map(|mut v| { if shape == 3 { v.sort(); } v }).map_err(|e| format!("{e}"))
+            };
+            let r = guarded(|| {
+                let p = Pipeline::default();
+                let (mid, kept) = build(&p);
+                let before = run(kept.clone());
+                let sib = mid.map_values(|v: &i64| v * 100);
+                let after = run(kept.clone());
+                let sib_out = run(sib);
+                let again = run(kept);
+                let fresh = { let q = Pipeline::default(); let (_m, k) = build(&q); run(k) };
+                (before, after, again, fresh, sib_out)
+            });
+            let i = cx.case(format!("ORACLE-ONLY sibling-on-intermediate shape={shape} par={par:?}"), "-".into(), true);
+            cx.count("sibling:on-intermediate-of-value-only-run");
+            match r {
+                Err(m) => cx.oracle_fail(i, "sibling-case-panics", m),
+                Ok((before, after, again, fresh, _)) => {
+                    if before != after || after != again {
+                        cx.oracle_fail(i, "collect-changes-when-a-sibling-branch-is-added", format!("before {before:?} after {after:?} again {again:?}"));
+                    } else if before != fresh {
+                        cx.oracle_fail(i, "collect-differs-from-the-same-lineage-without-sibling", format!("with sibling history {before:?}, fresh pipeline {fresh:?}"));
+                    }
+                }
+            }
+        }
+    }
+}
+
 pub fn run(cx: &mut Ctx) {
     ABORT.store(false, Ordering::SeqCst);
     ironbeam::verif_hooks::set_yield_callback(Some(Arc::new(|site| yield_here(site))));
@@ -1352,6 +1397,13 @@ pub fn run(cx: &mut Ctx) {
     // (so key 2 is unmatched, twice, in every join of the two), 2 = group_by_key of the source (k,Vec v)
     let prefix = vec![src(&base), Op::Derive(Ref::Front(0), F::Rekey(2)), Op::Group(Ref::Front(0))];
     let pre_steps = prog_steps(&prefix);
+
+    // (0) round 6 — a SIBLING hung on an intermediate of a value-only run must not change what a descendant returns.
+    // The steps here deliberately do NOT commute (the planner's value-only reorder, a recorded finding of C02/C03, may
+    // act on them): the oracle compares the collection with ITSELF before and after the sibling is added, and with the
+    // same lineage on a fresh pipeline that never gets a sibling — never with the steps-as-written reference. A plan
+    // that depends on whether an ancestor has a second consumer (fusion stopping at shared nodes) changes the answer.
+    sibling_cases(cx);
 
     // (1) corpus / design witnesses: sequential re-collection, ancestors after descendants, siblings
     {
